@@ -4,6 +4,8 @@ import (
 	"context"
 	"time"
 
+	"google.golang.org/protobuf/proto"
+
 	"github.com/smart-core-os/sc-api/go/traits"
 	"github.com/smart-core-os/sc-golang/pkg/resource"
 )
@@ -70,7 +72,8 @@ func (m *Model) setLevelFromPreset(b *traits.Brightness) bool {
 	for _, p := range m.presets {
 		if p.Name == b.GetPreset().GetName() {
 			b.LevelPercent = p.levelPercent
-			b.Preset = p.LightPreset // sets the title if needed
+			// sets the title if needed. A copy: b stays the caller's message, the preset stays ours
+			b.Preset = proto.Clone(p.LightPreset).(*traits.LightPreset)
 			return true
 		}
 	}
